@@ -30,7 +30,10 @@ def exact(x):
 def mantissas(tier, rnd):
     base = ["0", "1", "-1", "2", "5", "10", "999.5", "1000", "1000.5", "0.001", "0.0009995", "1500", "-1500", "3",
             "0.5", "12345678901234567890", "1.000000000000000000001", "123456789.123456789", "-0.000123",
-            "9999999999999999999999999", "1E+3", "1.50", "7E-7"]
+            "9999999999999999999999999", "1E+3", "1.50", "7E-7",
+            # float() corner cases: integers just above 2**53, 16-17 digit mantissas, ties between adjacent doubles
+            "9007199254740993", "-9007199254740995", "9.999999999999999", "-9.999999999999999", "1.0000000000000002",
+            "4503599627370497.5", "0.1000000000000000055511151231257827", "123456789012345678"]
     n = 60 if tier == "thorough" else 8
     for _ in range(n):
         digits = rnd.randint(1, 25)
@@ -143,6 +146,51 @@ def check_pair(case):
     return None
 
 
+def check_routes(case):
+    """the same number reached by different construction routes (fresh, copy of a USED number with fields updated,
+    copy / deepcopy / pickle) behaves identically: equality, hash, int, float, ordering against the original"""
+    import copy
+    import pickle
+    from hdl21.prefix import Prefix, Prefixed
+    a, pa, b, pb = case
+    w = {"case": repr(case), "routes": True}
+    x = Prefixed(number=Decimal(a), prefix=Prefix[pa])
+    fresh = Prefixed(number=Decimal(b), prefix=Prefix[pb])
+    try:
+        hash(x), float(x), x == x, x < fresh, int(x)          # use it: any memo is now filled
+    except OverflowError:
+        pass
+    upd = dict(number=Decimal(b), prefix=Prefix[pb])
+    routes = {}
+    if hasattr(x, "model_copy"):
+        routes["model_copy(update)"] = lambda: x.model_copy(update=upd)
+    elif hasattr(x, "copy"):
+        routes["copy(update)"] = lambda: x.copy(update=upd)
+    routes["copy.copy"] = lambda: copy.copy(fresh)
+    routes["copy.deepcopy"] = lambda: copy.deepcopy(fresh)
+    routes["pickle"] = lambda: pickle.loads(pickle.dumps(fresh))
+    import dataclasses
+    for name, mk in routes.items():
+        try:
+            y = mk()
+        except Exception as e:
+            return (f"routes.raises.{type(e).__name__}", f"{name} of {x!r} raises {type(e).__name__}: {e}", w)
+        try:
+            obs = (exact(y), y == fresh, hash(y) == hash(fresh), int(y), y < x, y > x, y == x)
+            want = (exact(fresh), True, True, int(fresh), fresh < x, fresh > x, fresh == x)
+            try:
+                obs += (float(y),)
+                want += (float(fresh),)
+            except OverflowError:
+                pass
+        except Exception as e:
+            return (f"routes.use-raises.{type(e).__name__}", f"{name}: {type(e).__name__}: {e}", w)
+        if obs != want:
+            return ("routes.differs", f"{y!r} obtained by {name} from a used {x!r} behaves unlike a fresh {fresh!r}: "
+                                      f"(exact, ==fresh, hash, int, <x, >x, ==x, float) = {obs} vs {want}", w)
+    return None
+
+
 def check_tables(_):
     from hdl21.prefix import Prefix, e
     for p in Prefix:
@@ -172,6 +220,11 @@ def run(ctx):
                          "with different prefixes); every comparison operator, hash, int, float, + - * neg abs scale "
                          "against fractions.Fraction; distinct = distinct (mantissa, prefix) pair; all non-trivial",
                     bound="441 prefix pairs x %d mantissa pairs" % (12 if ctx.tier == "thorough" else 5), key_of=repr)
+    ctx.run_bounded("construction-routes", cases("quick", ctx.seed), check_routes,
+                    rule="every quick-tier (mantissa, prefix) pair: the second number obtained from a USED first one by "
+                         "copy-with-update, and by copy / deepcopy / pickle of a fresh one; equality, hash, int, float "
+                         "and ordering must equal the fresh number's", bound="441 prefix pairs x 8 mantissa pairs",
+                    key_of=repr)
     deductive(ctx)
     return INFO
 
@@ -217,6 +270,13 @@ def replay_prefix(con, ob):
     bad = native_clauses(a, b)
     if bad:
         return (True, f"{a!r} vs {b!r}: " + "; ".join(bad), inp)
+    clause = ob.name.rsplit("/", 1)[-1]
+    if clause in ("float-nearest", "same-value.hash"):
+        # float() / hash() are uninterpreted in the encoding: the model's mantissas say nothing about where the real
+        # functions disagree. The obligation held on the unchanged tree and fails now: reported without an input.
+        return None
+    if clause == "never-raises":
+        return ("undecided", "a raising path is feasible in the encoding; the decimal model does not raise natively", inp)
     return (False, "the decimal model does not fail natively", inp)
 
 
@@ -326,7 +386,9 @@ def deductive(ctx):
 def replay(payload):
     inp = payload.get("input") or {}
     c = inp.get("case")
-    if c and inp.get("native") == "clauses":
+    if c and inp.get("routes"):
+        r = check_routes(eval(c))
+    elif c and inp.get("native") == "clauses":
         from hdl21.prefix import Prefix, Prefixed
         x, px, y, py = eval(c)
         r = native_clauses(Prefixed(number=Decimal(x), prefix=Prefix[px]), Prefixed(number=Decimal(y), prefix=Prefix[py]))
